@@ -116,10 +116,35 @@ pub trait GraphNameIndex: TermIndex {
 //
 
 /// A generic implementation of [`TermIndex`].
-#[derive(Clone, Debug, Default)]
+#[derive(Debug, Default)]
 pub struct SimpleTermIndex<I: Index> {
     t2i: HashMap<SimpleTerm<'static>, I>,
+    // NB: the terms in i2t borrow their data from the keys of t2i (see ensure_index)
     i2t: Vec<SimpleTerm<'static>>,
+}
+
+impl<I: Index> Clone for SimpleTermIndex<I> {
+    fn clone(&self) -> Self {
+        // i2t can not be simply cloned,
+        // because its terms would still borrow their data from the keys of self.t2i,
+        // and dangle as soon as self is dropped or mutated independently of the clone.
+        // It must be rebuilt from the keys of the cloned t2i.
+        let t2i = self.t2i.clone();
+        let mut i2t: Vec<Option<SimpleTerm<'static>>> = vec![None; t2i.len()];
+        for (t, i) in &t2i {
+            let t2 = t.as_simple();
+            // the following is safe, for the same reason as in ensure_index:
+            // t2 borrows data from the key in t2i,
+            // which will live as long as the clone, and will not be moved (Box<str>).
+            let t2: SimpleTerm<'static> = unsafe { std::mem::transmute(t2) };
+            i2t[i.into_usize()] = Some(t2);
+        }
+        let i2t = i2t
+            .into_iter()
+            .map(|t| t.expect("every index is mapped by exactly one term"))
+            .collect();
+        SimpleTermIndex { t2i, i2t }
+    }
 }
 
 impl<I: Index> SimpleTermIndex<I> {
